@@ -103,13 +103,13 @@ theorem ios_tail_ret (env : Env) (sX : St) (h : Pd noBad .save sX)
     (hr : (exec (
       .ite (.flag .okMark) "strings.Contains($IssueCmd, \"[OK]\")" (.ret .none []) .skip ;;
       .ite (.flag .openFailed) "strings.Contains($IssueCmd, \"startup-config file open failed\")"
-        (.ite .ctrPos "$const > 0" (.decCtr ;; .cont) .skip ;;
+        (.ite .ctrPos "$v > 0" (.decCtr ;; .cont) .skip ;;
          .abort ["write mem: startup-config open failed - giving up"]) .skip ;;
       .abort ["write mem: unexpected result: %s", "_"]) env sX).mode = .ret) :
     saveConfirmed (exec (
       .ite (.flag .okMark) "strings.Contains($IssueCmd, \"[OK]\")" (.ret .none []) .skip ;;
       .ite (.flag .openFailed) "strings.Contains($IssueCmd, \"startup-config file open failed\")"
-        (.ite .ctrPos "$const > 0" (.decCtr ;; .cont) .skip ;;
+        (.ite .ctrPos "$v > 0" (.decCtr ;; .cont) .skip ;;
          .abort ["write mem: startup-config open failed - giving up"]) .skip ;;
       .abort ["write mem: unexpected result: %s", "_"]) env sX).tr = true := by
   have hm1 := h.mode
@@ -179,8 +179,8 @@ def panosPollRound : Sess :=
   .ite .err "err != nil" (.ret .keep ["err"]) .skip ;;
   xmlUnmarshal ;;
   .ite .err "err != nil" (.ret .keep ["err"]) .skip ;;
-  .ite (.flag .pend) "¬$new.Result != \"PEND\"" .cont
-    (.ite (.flag .jobOk) "¬$new.Result != \"OK\"" (.ret .nil ["nil"]) (.ret .err ["_"]))
+  .ite (.flag .pend) "¬$v.Result != \"PEND\"" .cont
+    (.ite (.flag .jobOk) "¬$v.Result != \"OK\"" (.ret .nil ["nil"]) (.ret .err ["_"]))
 
 /-- the commit request and the inspection of its answer -/
 def panosCommitHead : Sess :=
